@@ -734,7 +734,7 @@ func (x *Explorer) callLevel(st *State, site ssa.CallInstruction, cc *ssa.CallCo
 		st.add(ECallGetCache)
 		x.L.Event(x, st, &Event{Kind: EvEffect, Eff: ECallGetCache, Instr: site, Callee: callee, Tags: rt})
 	}
-	if rn == a.ObjIndex && cl.Has(EIdxWLive) && !cl.Has(EErrUnique) && rt&TLive != 0 {
+	if rn == a.ObjIndex && cl.Has(EIdxWLive) && !cl.Has(EErrUnique) && rt&TLive != 0 && x.P.IsIndexDelete(callee) {
 		st.add(ECallUnindex)
 		x.L.Event(x, st, &Event{Kind: EvEffect, Eff: ECallUnindex, Instr: site, Callee: callee, Tags: rt})
 	}
